@@ -9,7 +9,7 @@
     reader adds are disregarded by the observer. *)
 From Coq Require Import List NArith ZArith Bool.
 Import ListNotations.
-From Verif Require Import Common.ListX Gen.Prims C03.Printer.
+From Verif Require Import Common.ListX Gen.Prims C03.Printer C03.Limits.
 Local Open Scope N_scope.
 
 Definition flt_eqb (a b : flt) : bool :=
@@ -87,6 +87,14 @@ Fixpoint has_decimal (v : value) : bool :=
   end.
 Definition claims (pc : pctl) (v : value) : bool :=
   p_readably pc && (p_dup pc || negb (has_decimal v)).
+
+(** Non-nil *print-length* / *print-level* abbreviate the output ("..." and "#") and then make no
+    claim of readability -- except under *print-dup*, which prescribes the full, re-readable
+    text whatever the two limits are. *)
+Definition lim_is_nil (lim : plim) : bool :=
+  match lim with PL None None => true | _ => false end.
+Definition claims_lim (pc : pctl) (lim : plim) (v : value) : bool :=
+  claims pc v && (p_dup pc || lim_is_nil lim).
 
 (** The observation of one round trip: how many forms were read, the first of them, whether
     printing it again gave the same text (0 no, 1 yes, 2 not determined: the re-read value
